@@ -206,8 +206,8 @@ fn program_x(name: &'static str, parked: Vec<Cons>, racing: Vec<Cons>, with_outs
 
 pub fn units(thorough: bool) -> Vec<Unit> {
     use Cons::*;
-    let d = if thorough { 7 } else { 4 };
-    let d2 = if thorough { 5 } else { 3 };
+    let d = if thorough { 9 } else { 4 };
+    let d2 = if thorough { 6 } else { 3 };
     let cfg = ExecCfg::default();
     let mut v = vec![];
     let progs: Vec<(&'static str, Vec<Cons>, Vec<Cons>, bool, usize)> = vec![
